@@ -305,6 +305,11 @@ func phaseAt(w *world, last int) string {
 // failBubble classifies the failure of a bubble: a deadlock (every goroutine of the simulated world blocked
 // for ever) means an operation of the code under test never completed.
 func failBubble(o *sim.Outcome, fail string) {
+	if sim.LeftoverOnly(fail) {
+		// (callers go on with their oracles: see sim.LeftoverOnly)
+		o.Probe("goroutines_left_after_the_last_operation")
+		return
+	}
 	if strings.Contains(fail, "deadlock") {
 		o.Fail("any.stalled", "stalled", 0, "the simulated world came to a standstill: an operation never completed (%s)", fail)
 		return
